@@ -526,3 +526,65 @@ def typealias_programs():
             if valid(src):
                 out.append(src)
     return out
+
+
+# ----------------------------------------------------------------------------------------------------------------------
+# deterministic product: every binding / declaring / reading form x identifiers with a special look x place
+
+SPECIAL_NAMES = ['_', '__', '_x', '__priv', '__dunder__', 'match', 'case', 'type', 'é', 'print', 'self', 'cls', 'NAME', 'x1']
+
+NAME_FORMS = {
+    'assign': '{n} = v0',
+    'augassign': '{n} = 0\n{n} += v1',
+    'annassign': '{n}: ann0 = v2',
+    'ann-only': '{n}: ann1',
+    'for': 'for {n} in seq0:\n    pass',
+    'for-tuple': 'for ({n}, other0) in seq3:\n    pass',
+    'with': 'with cm0 as {n}:\n    pass',
+    'except': 'try:\n    pass\nexcept Exc0 as {n}:\n    pass',
+    'except-tuple': 'try:\n    pass\nexcept (ExcA, ExcB) as {n}:\n    use0({n})',
+    'except-star': 'try:\n    pass\nexcept* Exc1 as {n}:\n    pass',
+    'import': 'import {n}',
+    'import-dotted': 'import {n}.sub0',
+    'import-as': 'import mod0 as {n}',
+    'from': 'from mod2 import {n}',
+    'from-as': 'from mod1 import thing as {n}',
+    'def': 'def {n}(): pass',
+    'class': 'class {n}: pass',
+    'param': 'def fn0({n}, *, kw0=None): return {n}',
+    'vararg': 'def fn4(*{n}, **kw1): return {n}',
+    'lambda': 'lam0 = lambda {n}: {n}',
+    'comp': 'lst0 = [{n} for {n} in seq1]',
+    'walrus': 'if ({n} := v3): pass',
+    'comp-walrus': 'lst1 = [({n} := e0) for e0 in seq2]',
+    'match-capture': 'match subj0:\n    case {n}:\n        pass',
+    'match-as': 'match subj1:\n    case Cls0() as {n}:\n        pass',
+    'match-star': 'match subj2:\n    case [first0, *{n}]:\n        pass',
+    'match-rest': 'match subj3:\n    case {{"k": v4, **{n}}}:\n        pass',
+    'match-kw': 'match subj4:\n    case Cls1(attr0={n}):\n        pass',
+    'match-or': 'match subj5:\n    case ({n}, 1) | (1, {n}):\n        pass',
+    'global': 'def fn1():\n    global {n}\n    {n} = 1',
+    'nonlocal': 'def fn2():\n    {n} = 0\n    def inner0():\n        nonlocal {n}\n        {n} = 1',
+    'del': '{n} = 0\ndel {n}',
+    'tparam': 'def fn3[{n}](p: {n}): pass',
+    'typealias': 'type {n} = int0',
+    'load': 'use1({n})',
+    'load-attr': 'use2({n}.attr1, key={n})',
+}
+
+
+def name_programs():
+    out = []
+    for place in ('module', 'def', 'class', 'def>def'):
+        for form, tpl in NAME_FORMS.items():
+            for nme in SPECIAL_NAMES:
+                lines = tpl.format(n=nme).split('\n')
+                for lvl in reversed(place.split('>')):
+                    if lvl == 'def':
+                        lines = ['def outer0(oa0):'] + ['    ' + l for l in lines] + ['    return oa0']
+                    elif lvl == 'class':
+                        lines = ['class Outer0:'] + ['    ' + l for l in lines]
+                src = '\n'.join(lines) + '\n'
+                if valid(src):
+                    out.append(src)
+    return out
